@@ -1,6 +1,7 @@
 """C17 - metrics are classified and evaluated according to the documented contract (DESIGN.md 6/C17)"""
 import math
 from hypothesis import strategies as st
+from ..strat import ints
 from .. import specs, refsel, build
 from ..core import Result, viol, exc_sig
 from ..observe import dv_meta, all_vectors, lcg_vectors
@@ -15,6 +16,8 @@ RULE = ('cases = generated G-SEL spec with 1-4 metric nodes of every direction/r
         'evaluator value / NaN / reference value for absent constraint, metric_values mirror); one evaluation = one '
         'evaluated architecture; non-trivial = a conditional constraint metric absent in >= 1 and present in >= 1 '
         'architecture; distinct by sha1(spec, evaluator plan)')
+FUZZ_MODULES = ['adsg_core.optimization.evaluator']   # thorough tier: atheris campaign over these modules (vf/fuzz.py)
+FUZZ_RUNS = 3000
 BUDGET = {'quick': 300, 'thorough': 6000}
 
 
@@ -26,7 +29,7 @@ def _case(draw, tier):
     plan = {m: draw(st.sampled_from(['value', 'value', 'missing', 'nan'])) for m in mets}
     # what the user's _evaluate hands back: exactly the requested nodes, a map over ALL metric nodes of the design space
     # (also those absent from the architecture), or one dict that persists and accumulates across evaluate() calls
-    return {'spec': spec, 'plan': plan, 'vseed': draw(st.integers(0, 999)),
+    return {'spec': spec, 'plan': plan, 'vseed': draw(ints(0, 999)),
             'ev_mode': draw(st.sampled_from(['requested', 'requested', 'all_nodes', 'persistent']))}
 
 
